@@ -44,6 +44,7 @@ PART = param("C02_PART", quick=0, thorough=0)     # 0: all annotations; 1/2: fir
 # Type grammar: spec trees.  ("int",) ... scalars; ("List", T) ...
 SCALARS = ["int", "float", "complex", "bool", "str", "bytes", "None", "object",
            "Any", "A", "B", "C"]
+EXTRA_SCALARS = ["HasM", "MyInt"]
 ARG1 = ["int", "float", "str", "A", "object"]
 
 
@@ -92,13 +93,27 @@ def _grammar(level):
         ("Tuple1", ("int",)), ("Tuple3", ("int",), ("str",), ("float",)),
         ("Tuple0",),
     ]
+  if level >= 3:
+    g += [
+        ("HasM",), ("MyInt",), ("Optional", ("HasM",)), ("List", ("HasM",)),
+        ("Iterable", ("Any",)), ("Sequence", ("object",)), ("Dict", ("str",), ("Any",)),
+        ("TupleN", ("Any",)), ("List", ("Union", ("int",), ("str",))),
+        ("Optional", ("Union", ("int",), ("str",))),
+        ("Union", ("int",), ("str",), ("None",)), ("Type", ("C",)), ("Type", ("MyInt",)),
+        ("FrozenSet", ("int",)), ("Mapping", ("str",), ("Mapping", ("str",), ("int",))),
+        ("List", ("complex",)), ("Dict", ("str",), ("Optional", ("int",))),
+        ("Union", ("Type", ("A",)), ("Type", ("C",))), ("Tuple2", ("float",), ("complex",)),
+        ("Set", ("float",)), ("Sequence", ("Optional", ("A",))),
+        ("Callable1", ("str",)), ("Union", ("CallableAny",), ("int",)),
+        ("List", ("TupleN", ("int",))), ("TupleN", ("TupleN", ("int",))),
+    ]
   return g
 
 
 def spell(t):
   """Source text of an annotation spec."""
   k = t[0]
-  if k in SCALARS:
+  if k in SCALARS or k in EXTRA_SCALARS:
     return k
   a = [spell(x) for x in t[1:]]
   if k == "TupleN":
@@ -126,12 +141,23 @@ VALUES = [
     "A", "B", "C", "int", "bool",
     "g0", "g1", "g2", "g1d",
 ]
+if LEVEL >= 3:
+  VALUES += [
+      "MyInt(3)", "frozenset({1})", "{'a': {'b': 1}}", "[(1, 2)]", "(1.5,)",
+      "[MyInt(1)]", "WithM()", "[WithM()]", "MyInt", "{'s': None}", "{1.5}",
+      "(2j, 1)", "[[]]", "((1, 2), (3,))", "[A(), None]",
+  ]
 
 PRELUDE = """\
-from typing import Any, Callable, Dict, Iterable, List, Mapping, Optional, Sequence, Set, Tuple, Type, Union
+from typing import Any, Callable, Dict, FrozenSet, Iterable, List, Mapping, Optional, Protocol, Sequence, Set, Tuple, Type, Union
 class A: pass
 class B(A): pass
 class C: pass
+class MyInt(int): pass
+class HasM(Protocol):
+  def m(self) -> int: ...
+class WithM:
+  def m(self) -> int: return 1
 def g0(): return 1
 def g1(x): return 1
 def g2(x, y): return 1
@@ -152,7 +178,7 @@ exec(PRELUDE, _NS)  # pylint: disable=exec-used
 RUNTIME = [eval(e, _NS) for e in VALUES]  # pylint: disable=eval-used
 _CLS = {"int": int, "float": float, "complex": complex, "bool": bool, "str": str,
         "bytes": bytes, "object": object, "A": _NS["A"], "B": _NS["B"],
-        "C": _NS["C"]}
+        "C": _NS["C"], "MyInt": _NS["MyInt"]}
 
 
 def _arity_ok(v, n):
@@ -182,6 +208,10 @@ def member(v, t):
     return isinstance(v, (int, float, complex))
   if k in _CLS:
     return isinstance(v, _CLS[k])
+  if k == "HasM":   # structural: an instance whose class defines a method m
+    return callable(getattr(type(v), "m", None)) and not isinstance(v, type)
+  if k == "FrozenSet":
+    return isinstance(v, frozenset) and all(member(e, t[1]) for e in v)
   if k == "List":
     return isinstance(v, list) and all(member(e, t[1]) for e in v)
   if k == "Set":
@@ -194,7 +224,7 @@ def member(v, t):
   if k == "Sequence":
     return isinstance(v, (list, tuple, str, bytes)) and all(member(e, t[1]) for e in v)
   if k == "Iterable":
-    return (isinstance(v, (list, tuple, set, dict, str, bytes)) and
+    return (isinstance(v, (list, tuple, set, frozenset, dict, str, bytes)) and
             all(member(e, t[1]) for e in v))
   if k == "Dict" or k == "Mapping":
     return isinstance(v, dict) and all(
@@ -428,7 +458,7 @@ def h_enforce(s: SEL) -> bool:
 def _hetero(v):
   """A mutable container literal whose elements are of more than one type
   (pytype gives its element parameter several bindings)."""
-  if isinstance(v, (list, set)):
+  if isinstance(v, (list, set, frozenset)):
     return len({type(e) for e in v}) > 1 or any(_hetero(e) for e in v)
   if isinstance(v, dict):
     return (len({type(e) for e in v}) > 1 or
